@@ -117,7 +117,8 @@ def _scalar():
 
 def _tree(max_depth, allow_empty, allow_none=True):
   leaf = st.one_of(_scalar() if allow_none else _scalar().filter(lambda j: j['v'] is not None),
-                   st.lists(st.integers(0, 9), min_size=1, max_size=4).map(lambda v: {'a': v}))
+                   st.lists(st.integers(0, 9), min_size=1, max_size=4).map(lambda v: {'a': v}),
+                   st.lists(st.integers(0, 9), min_size=1, max_size=4).map(lambda v: {'av': v}))
   if allow_empty:
     leaf = st.one_of(leaf, st.sampled_from([{'d': []}, {'l': []}, {'t': []}]))
 
@@ -302,6 +303,10 @@ def strat_views(tier):
   @st.composite
   def s(draw):
     tj = draw(_root(4, False))
+    if draw(st.integers(0, 14)) == 0:
+      # a wide tree: one small nested row repeated, more than 2**6 leaves in total
+      row = draw(_tree(3, False).filter(lambda j: next(iter(j)) in 'dlt' and bool(next(iter(j.values())))))
+      tj = {'l': [row] * draw(st.sampled_from([33, 65, 70]))}
     data = tr.decode(tj)
     share = [draw(st.integers(0, 5)), draw(st.integers(0, 5))] if draw(st.integers(0, 3)) == 0 else None
     if share:
